@@ -4,6 +4,7 @@ import (
 	"bytes"
 	"errors"
 
+	"github.com/aergoio/aergo-lib/db"
 	"github.com/aergoio/aergo/v2/consensus"
 	"github.com/aergoio/aergo/v2/pkg/component"
 	"github.com/aergoio/aergo/v2/state"
@@ -55,15 +56,15 @@ func (c *vfCC) NeedReorganization(rootNo types.BlockNo) bool {
 	c.needCalls++
 	return rootNo >= c.lib
 }
-func (c *vfCC) NeedNotify() bool                          { return false }
-func (c *vfCC) HasWAL() bool                              { return false }
+func (c *vfCC) NeedNotify() bool                         { return false }
+func (c *vfCC) HasWAL() bool                             { return false }
 func (c *vfCC) IsConnectedBlock(block *types.Block) bool { return false }
-func (c *vfCC) IsForkEnable() bool                        { return true }
-func (c *vfCC) Info() string                              { return "" }
+func (c *vfCC) IsForkEnable() bool                       { return true }
+func (c *vfCC) Info() string                             { return "" }
 
 type vfUniverse struct {
 	kv   *vf.KV // chain DB store
-	skv  *vf.KV // state DB store
+	skv  db.DB  // state DB store
 	cs   *ChainService
 	cc   *vfCC
 	hub  *component.ComponentHub
@@ -87,7 +88,7 @@ type vfTxPos struct {
 }
 
 // vfNewCS builds a ChainService over the two stores: only the parts the chain-index code touches.
-func vfNewCS(kv *vf.KV, skv *vf.KV, cc *vfCC, sroot []byte) (*ChainService, *component.ComponentHub, *vf.HubLog) {
+func vfNewCS(kv db.DB, skv db.DB, cc *vfCC, sroot []byte) (*ChainService, *component.ComponentHub, *vf.HubLog) {
 	cdb := NewChainDB()
 	cdb.store = kv
 	cdb.cc = cc
@@ -159,7 +160,12 @@ func (u *vfUniverse) store(blk *types.Block) error {
 
 // vfBuild creates the universe and the blocks (nothing is written yet). txsPer[i] txs in the i-th created block.
 func vfBuild(a, b, f int, ntx func(branch string, i int) int, rootOf func(branch string, i int) []byte) *vfUniverse {
-	u := &vfUniverse{a: a, b: b, f: f, kv: vf.NewKV(), skv: vf.NewKV(), cc: &vfCC{failAt: -1}}
+	return vfBuildOn(vf.NewKV(), vf.NewKV(), a, b, f, ntx, rootOf)
+}
+
+// vfBuildOn: the same over given stores (C06 uses two views of one KV so that both DBs share one crash index).
+func vfBuildOn(kv *vf.KV, skv db.DB, a, b, f int, ntx func(branch string, i int) int, rootOf func(branch string, i int) []byte) *vfUniverse {
+	u := &vfUniverse{a: a, b: b, f: f, kv: kv, skv: skv, cc: &vfCC{failAt: -1}}
 	if rootOf == nil {
 		rootOf = func(string, int) []byte { return nil }
 	}
